@@ -2,7 +2,7 @@
    longitude; latitude bounds enclose / are attained; pole branches; the normal branch (code since the fix
    bb1965a6: node, then both extremes) encloses every corner and both extremes of every edge.  For every edge list. *)
 From Coq Require Import ZArith Lia ZifyBool List Bool.
-From Verif Require Import Base C13.
+From Verif Require Import Base C14_consts C14 C13.
 Local Open Scope Z_scope.
 
 Ltac c13_ifs := repeat match goal with
@@ -510,3 +510,137 @@ Example c13_ex_insert_wrap :
   let b := {| c13_lat_lo := 0; c13_lat_hi := 10; c13_lon_lo := 350; c13_lon_hi := 10 |} in
   c13_lon_ok 360 b /\ c13_insert 360 90 b 5 340 = {| c13_lat_lo := 0; c13_lat_hi := 10; c13_lon_lo := 340; c13_lon_hi := 10 |}.
 Proof. cbv zeta. split; [right; cbn; lia | vm_compute; reflexivity]. Qed.
+
+(* ------------------------------------------------------------------------------------------ *)
+(* pole containment: the model of _pole_point_inside_polygon against the exact predicate           *)
+
+(* a face entirely on one hemisphere is never reported to contain the opposite pole *)
+Lemma c13_pole_opposite_hemisphere edges :
+  (c13_location edges = c13_North -> c13_pole_inside false edges = Some false) /\
+  (c13_location edges = c13_South -> c13_pole_inside true edges = Some false).
+Proof. unfold c13_pole_inside. split; intros ->; reflexivity. Qed.
+
+Definition c13_w_cap_general := c13_cycle [(1,1,5); (-1,1,5); (-1,-1,5); (1,-1,5)].
+Definition c13_w_cap_lon0 := c13_cycle [(1,0,5); (0,1,5); (-1,0,5); (0,-1,5)].
+Definition c13_w_edge_ref := c13_cycle [(9,-2,0); (9,2,0); (10,0,4)].
+Definition c13_w_south_tri := c13_cycle [(32,7,-95); (-76,-65,-4); (-74,61,28)].
+Definition c13_w_plain := c13_cycle [(10,2,3); (10,5,3); (10,3,6)].
+
+(* in general position the detection is right (instances; the general statement is validated by the harness on every
+   generated face, not proved) *)
+Example c13_ex_pole_detection_right :
+  c13_location c13_w_cap_general = c13_North /\
+  c13_pole_in_face c13_NPOLE c13_w_cap_general = true /\ c13_pole_inside true c13_w_cap_general = Some true /\
+  c13_pole_inside false c13_w_cap_general = Some false /\
+  c13_pole_in_face c13_NPOLE c13_w_plain = false /\ c13_pole_inside true c13_w_plain = Some false /\
+  c13_pole_inside false c13_w_plain = Some false.
+Proof. repeat split; vm_compute; reflexivity. Qed.
+
+(* known finding C13-vertex-on-ref-meridian: cap with corners at lat 78.7, lon 0/90/180/270 *)
+Lemma c13_pole_detection_vertex_on_meridian_refuted :
+  exists edges, c13_pole_in_face c13_NPOLE edges = true /\ c13_pole_inside true edges = Some false.
+Proof. exists c13_w_cap_lon0. split; vm_compute; reflexivity. Qed.
+
+(* known finding C13-edge-through-reference-point: triangle (lon -12.5,0) (lon 12.5,0) (lon 0, lat 21.8) *)
+Lemma c13_pole_detection_edge_through_ref_refuted :
+  exists edges, c13_pole_in_face c13_NPOLE edges = false /\ c13_pole_in_face c13_SPOLE edges = false /\
+                c13_pole_inside true edges = Some true /\ c13_pole_inside false edges = Some true.
+Proof. exists c13_w_edge_ref. repeat split; vm_compute; reflexivity. Qed.
+
+(* known finding C13-equator-face-south-pole: the triangle encloses the south pole only, both flags are raised and
+   _populate_face_latlon_bound takes the north pole *)
+Lemma c13_pole_detection_equator_south_refuted :
+  exists edges, c13_location edges = c13_Equator /\
+                c13_pole_in_face c13_SPOLE edges = true /\ c13_pole_in_face c13_NPOLE edges = false /\
+                c13_pole_inside true edges = Some true /\ c13_pole_inside false edges = Some true.
+Proof. exists c13_w_south_tri. repeat split; vm_compute; reflexivity. Qed.
+
+(* known finding C13-pole-corner-longitude: face (lon 10, lat 70) (lon 60, lat 70) north pole (nominal lon 0), unit 1e-6
+   degree: the reported interval starts at the pole's nominal longitude 0 although every other corner is in [10, 60] *)
+Definition c13_w_pole_corner : list c13_edge :=
+  [ {| c13_lat1 := 70000000; c13_lon1 := 10000000; c13_lat2 := 70000000; c13_emax := 72480000; c13_emin := 70000000; c13_pole_here := false |};
+    {| c13_lat1 := 70000000; c13_lon1 := 60000000; c13_lat2 := 90000000; c13_emax := 90000000; c13_emin := 70000000; c13_pole_here := true |};
+    {| c13_lat1 := 90000000; c13_lon1 := 0;        c13_lat2 := 70000000; c13_emax := 90000000; c13_emin := 70000000; c13_pole_here := true |} ].
+
+Lemma c13_pole_corner_longitude_refuted :
+  let P := 360000000 in let H := 90000000 in
+  Forall (c13_edge_ok H) c13_w_pole_corner /\
+  (forall e, In e c13_w_pole_corner -> c13_lat1 e <> H -> 10000000 <= c13_lon1 e <= 60000000) /\
+  c13_lon_lo (c13_face_bounds P H true false c13_w_pole_corner) = 0 /\
+  c13_lon_hi (c13_face_bounds P H true false c13_w_pole_corner) = 60000000.
+Proof.
+  cbv zeta. split; [|split; [|split; vm_compute; reflexivity]].
+  - unfold c13_w_pole_corner. repeat constructor; unfold FILL; cbn; lia.
+  - intros e [<-|[<-|[<-|[]]]]; cbn; lia.
+Qed.
+
+(* ------------------------------------------------------------------------------------------ *)
+(* bounds assembly: latitude bounds are the extreme edge extremes; independence of start corner / direction *)
+
+Section LatMinMax.
+  Variables P H : Z.
+  Hypothesis HP : 0 < P.
+  Hypothesis HH : 0 < H.
+  Hypothesis HF : FILL < - H.
+
+  (* bounds assembly, latitude: the lower bound IS the least edge minimum and the upper bound the greatest edge maximum
+     (tight at an edge apex when that apex is the extreme) *)
+  Lemma c13_normal_lat_min_max es :
+    es <> [] -> Forall (c13_edge_ok H) es ->
+    let b := c13_bounds_normal P H es in
+    (exists e, In e es /\ c13_lat_lo b = c13_emin e) /\ (forall e, In e es -> c13_lat_lo b <= c13_emin e) /\
+    (exists e, In e es /\ c13_lat_hi b = c13_emax e) /\ (forall e, In e es -> c13_emax e <= c13_lat_hi b).
+  Proof.
+    intros Hne Hok. cbv zeta.
+    destruct (c13_normal_encloses P H HP HH HF es Hok) as [A B]. cbv zeta in A, B.
+    destruct (B Hne) as [(e1 & I1 & E1) (e2 & I2 & E2)].
+    rewrite Forall_forall in Hok.
+    split; [|split; [|split]].
+    - exists e1. split; [exact I1|].
+      destruct (A e1 I1) as (X1 & X2 & X3 & _). pose proof (Hok e1 I1) as K. unfold c13_edge_ok in K. lia.
+    - intros e He. destruct (A e He) as (_ & X & _). exact X.
+    - exists e2. split; [exact I2|].
+      destruct (A e2 I2) as (X1 & X2 & X3 & _). pose proof (Hok e2 I2) as K. unfold c13_edge_ok in K. lia.
+    - intros e He. destruct (A e He) as (_ & _ & X & _). exact X.
+  Qed.
+
+  (* hence the latitude bounds do not depend on the start corner or the traversal direction: two edge lists with the
+     same sets of edge minima and maxima give the same latitude bounds *)
+  Lemma c13_normal_lat_invariant es es' :
+    es <> [] -> es' <> [] -> Forall (c13_edge_ok H) es -> Forall (c13_edge_ok H) es' ->
+    (forall v, (exists e, In e es /\ c13_emin e = v) <-> (exists e, In e es' /\ c13_emin e = v)) ->
+    (forall v, (exists e, In e es /\ c13_emax e = v) <-> (exists e, In e es' /\ c13_emax e = v)) ->
+    c13_lat_lo (c13_bounds_normal P H es) = c13_lat_lo (c13_bounds_normal P H es') /\
+    c13_lat_hi (c13_bounds_normal P H es) = c13_lat_hi (c13_bounds_normal P H es').
+  Proof.
+    intros N1 N2 O1 O2 Smin Smax.
+    destruct (c13_normal_lat_min_max es N1 O1) as ((a & Ia & Ea) & La & (c & Ic & Ec) & Lc).
+    destruct (c13_normal_lat_min_max es' N2 O2) as ((a' & Ia' & Ea') & La' & (c' & Ic' & Ec') & Lc').
+    cbv zeta in *.
+    split.
+    - destruct (proj1 (Smin (c13_emin a)) (ex_intro _ a (conj Ia eq_refl))) as (x & Ix & Ex).
+      destruct (proj2 (Smin (c13_emin a')) (ex_intro _ a' (conj Ia' eq_refl))) as (y & Iy & Ey).
+      pose proof (La' x Ix). pose proof (La y Iy). lia.
+    - destruct (proj1 (Smax (c13_emax c)) (ex_intro _ c (conj Ic eq_refl))) as (x & Ix & Ex).
+      destruct (proj2 (Smax (c13_emax c')) (ex_intro _ c' (conj Ic' eq_refl))) as (y & Iy & Ey).
+      pose proof (Lc' x Ix). pose proof (Lc y Iy). lia.
+  Qed.
+End LatMinMax.
+
+(* non-vacuity: the witness face traversed from another corner and in the other direction *)
+Definition c13_witness_rev : list c13_edge :=
+  [ {| c13_lat1 := 60000000; c13_lon1 := 60000000; c13_lat2 := 40500000; c13_emax := 60000000; c13_emin := 40500000; c13_pole_here := false |};
+    {| c13_lat1 := 40500000; c13_lon1 := 60000000; c13_lat2 := 40000000; c13_emax := 44353182; c13_emin := 40000000; c13_pole_here := false |};
+    {| c13_lat1 := 40000000; c13_lon1 := 0;        c13_lat2 := 60000000; c13_emax := 60000000; c13_emin := 40000000; c13_pole_here := false |};
+    {| c13_lat1 := 60000000; c13_lon1 := 0;        c13_lat2 := 60000000; c13_emax := 63434949; c13_emin := 60000000; c13_pole_here := false |} ].
+
+Example c13_ex_lat_invariant :
+  let P := 360000000 in let H := 90000000 in
+  c13_witness_rev <> [] /\ Forall (c13_edge_ok H) c13_witness_rev /\
+  c13_lat_lo (c13_bounds_normal P H c13_witness_rev) = c13_lat_lo (c13_bounds_normal P H c13_witness) /\
+  c13_lat_hi (c13_bounds_normal P H c13_witness_rev) = 63434949 /\
+  c13_lon_lo (c13_bounds_normal P H c13_witness_rev) = 0 /\ c13_lon_hi (c13_bounds_normal P H c13_witness_rev) = 60000000.
+Proof.
+  cbv zeta. split; [discriminate|]. split; [|repeat split; vm_compute; reflexivity].
+  unfold c13_witness_rev. repeat constructor; unfold FILL; cbn; lia.
+Qed.
